@@ -16,7 +16,8 @@
       validate_error_located : In e errs -> validate_model repaired pi S F D = Done errs ->
                            e_locs e <> [] /\ every location is the position of a node of D
 
-    proved here:  - the verdict does not depend on pi                         (C04_accept_deterministic)
+    proved here:  - never Panic / OutOfFuel, any schema and document          (C04_validate_no_panic)
+                  - the verdict does not depend on pi                         (C04_accept_deterministic, C04_verdict_deterministic)
                   - accepted <-> every rule group silent                      (C04_accepted_iff_rules_silent)
                   - rule group <-> specification section, for 5.7 (directives), 5.5.1 (fragment
                     declarations), 5.4 (arguments), 5.6 (values), 5.2.1.1 / 5.2.2.1 / root types
@@ -34,7 +35,7 @@
 From Coq Require Import List NArith.
 From ApiFu Require Import Base.Sexp Vld.Ast Vld.Inspect Vld.TypeInfoModel Vld.TypeInfoPure Vld.ValidatorModel Vld.ValidSpec
      Vld.Hyps Vld.ProofsCommon Vld.ProofsDirectives Vld.ProofsArguments Vld.ProofsFragDecl Vld.ProofsValues
-     Vld.ProofsCycles Vld.ProofsVarsOrder Vld.ProofsOrder Vld.ProofsOperations Vld.ValidatorProofs Vld.Witness.
+     Vld.ProofsCycles Vld.ProofsVarsOrder Vld.ProofsOrder Vld.ProofsOperations Vld.ProofsTotal Vld.ValidatorProofs Vld.Witness.
 Import ListNotations.
 
 (** ** determinism: acceptance is a function of schema, features and document alone *)
@@ -42,6 +43,22 @@ Theorem C04_accept_deterministic : forall pi1 pi2 S F D,
   order_ok pi1 -> order_ok pi2 ->
   (validate_model repaired pi1 S F D = Done [] <-> validate_model repaired pi2 S F D = Done []).
 Proof. exact validate_accept_order. Qed.
+
+(** the repaired validator never panics and never runs out of fuel: for EVERY schema, feature set
+    and document (no well-formedness assumed: undefined fragments, spread cycles, unknown types,
+    selection sets on leaves, ... included) and every map order the outcome is a list of errors.
+    The only premise is that a Go range visits each map entry once.  (Exported to C03.) *)
+Theorem C04_validate_no_panic : forall pi S F D,
+  order_ok pi -> exists errs, validate_model repaired pi S F D = Done errs.
+Proof. exact validate_no_panic. Qed.
+
+(** hence the verdict proper: accepted under both orders, or rejected (a non-empty list of errors)
+    under both *)
+Theorem C04_verdict_deterministic : forall pi1 pi2 S F D,
+  order_ok pi1 -> order_ok pi2 ->
+  (validate_model repaired pi1 S F D = Done [] /\ validate_model repaired pi2 S F D = Done []) \/
+  (exists e1 l1 e2 l2, validate_model repaired pi1 S F D = Done (e1 :: l1) /\ validate_model repaired pi2 S F D = Done (e2 :: l2)).
+Proof. exact validate_verdict_order. Qed.
 
 (** ** the pipeline *)
 (** NewTypeInfo never indexes an empty scope stack *)
@@ -177,6 +194,8 @@ Theorem C04_refuted_before_fix_nil_argument :
 Proof. exact panic_before_fix_4. Qed.
 
 Print Assumptions C04_accept_deterministic.
+Print Assumptions C04_validate_no_panic.
+Print Assumptions C04_verdict_deterministic.
 Print Assumptions C04_type_info_total.
 Print Assumptions C04_accepted_iff_rules_silent.
 Print Assumptions C04_all_rules_silent.
